@@ -14,10 +14,22 @@ func c16Gen(g *G) {
 	hostile := []string{"p", "k", "u", "x", "t", "e", "b", "q12345", "q0", "n77", "B0"}
 	g.Emit("c16.run o g0;w1;b;q12345;x;t;e;u;a0", "each-kind")
 	g.Emit("c16.run o,o g0;w1;close;g1;w2;a1;a0", "close-then-probe")
+	// notifications naming a message the client wrote that is not a request (its own msgs_ack): a real
+	// server rejects those too when the salt rotates; late and repeated deliveries
+	g.Emit("c16.run o,o g0;w1;u;W;rk0/2000;a0;j;g1;w2;a1", "notification-names-an-ack")
+	g.Emit("c16.run o,o g0;w1;u;W;Bk0;a0;j;g1;w2;a1", "notification-names-an-ack")
+	g.Emit("c16.run o,o u;W;c(rk0/2000,Bk0);x;W;rk1/2001;g1;w1;a1", "notification-names-an-ack")
+	g.Emit("c16.run o,o h;u;W;=;^x;=;g1;w1;a1", "late-and-repeated")
 	n := g.N(60, 1500)
 	for i := 0; i < n; i++ {
 		var plan []string
 		reqs := 0
+		hostile := hostile
+		if r.Intn(3) == 0 {
+			// make sure the client has written an acknowledgement the server can name
+			plan = append(plan, "u", "W")
+			hostile = append(append([]string{}, hostile...), fmt.Sprintf("rk0/%d", 2000+r.Intn(100)), "Bk0", "=")
+		}
 		// an optional answered call first (so that duplicates of its result can be replayed)
 		first := r.Intn(3) == 0
 		if first {
@@ -34,7 +46,7 @@ func c16Gen(g *G) {
 				var in []string
 				for q := 0; q < 1+r.Intn(4); q++ {
 					x := hostile[r.Intn(len(hostile))]
-					if x != "B0" {
+					if x != "B0" && x != "=" { // "=" (verbatim re-send) is a step, not a container member
 						in = append(in, x)
 					}
 				}
@@ -67,5 +79,5 @@ func c16Gen(g *G) {
 }
 
 func init() {
-	register(&Prop{Name: "c16", Gen: c16Gen, Exec: rsExec("c16"), Judge: rsJudge("c16")})
+	register(&Prop{Name: "c16", Gen: c16Gen, Exec: rsExec("c16"), Judge: rsJudge("c16"), Teardown: rsTeardown})
 }
